@@ -1,7 +1,66 @@
+/-
+  C12 — Default parameter discovery finds exactly the leaves that matter.
+
+  PROPERTY THEOREMS ONLY (statements fixed; helper lemmas in TjdLemmas/C12Lemmas.lean).
+  `descendantAccs` is the breadth-first walk of `_get_descendant_accumulate_grads` (tensors identified
+  by `(grad_fn, output_nr)`), over an arbitrary graph: cycles, diamonds, any depth, multi-output nodes.
+-/
 import TjdModel.Autojac.Leaves
+import TjdLemmas.C12Lemmas
 namespace Tjd.Props.C12
 open Tjd.Leaves
 
-theorem loop_zero (G : Graph) (ex : List (Nat × Nat)) (q e r : List Nat) : loop G ex 0 q e r = r := rfl
+/-- `n` is reachable from a start node by a path none of whose edges enters an excluded tensor -/
+inductive Reach (G : Graph) (excl : List (Nat × Nat)) : Nat → Nat → Prop where
+  | refl (n : Nat) : Reach G excl n n
+  | step (a b c : Nat) (nr : Nat) : Reach G excl a b → (c, nr) ∈ edgesOf G b → (c, nr) ∉ excl →
+      Reach G excl a c
+
+/-- start nodes: the `grad_fn` of every root tensor that is not itself excluded -/
+def startNodes (roots excl : List (Nat × Nat)) : List Nat :=
+  (roots.filter (fun r => !excl.contains r)).map (·.1)
+
+/-- all node ids occurring in the graph are valid indices (edges point inside the graph) -/
+def Closed (G : Graph) : Prop := ∀ n, n < G.length → ∀ e ∈ edgesOf G n, e.1 < G.length
+
+/-- CORRECTNESS OF THE WALK: the result is exactly the set of `AccumulateGrad` nodes reachable from the
+    non-excluded roots without entering an excluded tensor.  (The fuel `|roots| + |G| + 1` built into
+    `descendantAccs` always suffices: termination of the `while` loop.) -/
+theorem bfs_eq_reach (G : Graph) (roots excl : List (Nat × Nat)) (hG : Closed G)
+    (hr : ∀ r ∈ roots, r.1 < G.length) (n : Nat) :
+    n ∈ descendantAccs G roots excl ↔
+      isAcc G n = true ∧ ∃ r ∈ startNodes roots excl, Reach G excl r n := by
+  sorry
+
+/-- the result contains no duplicates (it is a set) -/
+theorem bfs_nodup (G : Graph) (roots excl : List (Nat × Nat)) :
+    (descendantAccs G roots excl).Nodup := by
+  sorry
+
+/-- the executable tensor-level reachability used as the oracle by the harness agrees with the walk -/
+theorem bfs_eq_tensorlevel (G : Graph) (roots excl : List (Nat × Nat)) (hG : Closed G)
+    (hr : ∀ r ∈ roots, r.1 < G.length) (n : Nat) :
+    n ∈ descendantAccs G roots excl ↔ n ∈ reachAvoidingTensors G roots excl := by
+  sorry
+
+/-- an excluded root contributes nothing by itself -/
+theorem excluded_root_ignored (G : Graph) (r : Nat × Nat) (excl : List (Nat × Nat)) (h : r ∈ excl) :
+    descendantAccs G [r] excl = [] := by
+  sorry
+
+/-- more roots find more leaves (monotone), fewer exclusions too -/
+theorem bfs_mono_roots (G : Graph) (roots roots' excl : List (Nat × Nat)) (hG : Closed G)
+    (hr : ∀ r ∈ roots', r.1 < G.length) (hsub : ∀ r ∈ roots, r ∈ roots') (n : Nat)
+    (hn : n ∈ descendantAccs G roots excl) : n ∈ descendantAccs G roots' excl := by
+  sorry
+
+/-- WHY TENSORS AND NOT NODES: a feature that is one output of a two-output node whose sibling output
+    is used by the loss.  Excluding the tensor `(1, 0)` still finds the leaf `2` through the sibling
+    edge `(1, 1)`; excluding the whole node would not. Graph: 0 = loss node with edges to outputs 0 and 1
+    of node 1 (the split), 1 -> 2 (AccumulateGrad of the shared leaf). -/
+example :
+    let G : Graph := [⟨false, [some (1, 0), some (1, 1)]⟩, ⟨false, [some (2, 0)]⟩, ⟨true, []⟩]
+    descendantAccs G [(0, 0)] [(1, 0)] = [2] ∧ descendantAccs G [(0, 0)] [(1, 0), (1, 1)] = [] := by
+  decide
 
 end Tjd.Props.C12
